@@ -692,6 +692,7 @@ void oracle_c08(Plan const& p, ChkptView const& v, Report& rep)
             if (!(rv.adj[i] > 0)) continue;   // not constrained by the property
             // weights whose unnormalised value underflows in T are outside what the code can resolve
             if (round_to(p.nt, rv.weights[i] * std::pow(rv.adj[i], v.beta)) == 0) continue;
+            if (!in_domain(p.nt, ref[i]) || !in_domain(p.nt, rv.weights[i] * std::pow(rv.adj[i], v.beta))) continue;
             if (!(std::fabs(rv.refined[i] - ref[i]) <= tol * ref[i]))
             {
                 rep.fail("C08", "refinement-formula", key, fmt(
